@@ -41,6 +41,8 @@ def gen_base(rng):
             x = X.gen_lot_notes(rng)                        # lots that differ in their note (or date) only
         elif rng.random() < 0.15:
             x = X.gen_implied_rate_with_cancel(rng)         # an implied rate beside a commodity that cancels (F65)
+        elif rng.random() < 0.15:
+            x = X.gen_implied_rate_with_virtual(rng)        # an implied rate beside a (virtual) posting in one of the two
         x.date = '2020/%02d/%02d' % (rng.randrange(1, 13), rng.randrange(1, 29))
         x.orig = i
         xs.append(x)
